@@ -29,6 +29,7 @@ def gen_case(rng, quick=True):
         case["kvalue"] = float(rng.choice([5000, 10000, 20000, 40000]))
     else:
         case["kgrid"] = 1250.0
+    have3d = False
     for _ in range(npulse):
         st = {"alpha": float(rng.choice([20, 35, 50, 70, 90, 110, 130, 155, 180])), "phi": float(rng.choice([0, 15, 40, 90, 135, 200, 270]))}
         r = rng.random()
@@ -50,17 +51,19 @@ def gen_case(rng, quick=True):
                 st["shift"] = v
         st["tau"] = float(F(rng.randint(8, 640), 8))                      # ms
         st["D"] = gen_D(rng, kdim)
-        # optional further gradient-free diffusion interval (D without k)
+        have3d = have3d or st["shift"] is not None
+        # optional further gradient-free diffusion interval (D without k); a tensor D is only valid once the state
+        # matrix carries kdim-dimensional coordinates (D._apply rejects a dimension mismatch: fix 6403b86)
         st["free"] = None
         if st["shift"] is None or rng.random() < 0.3:
-            st["free"] = {"tau": float(F(rng.randint(8, 400), 8)), "D": gen_D(rng, kdim)}
+            st["free"] = {"tau": float(F(rng.randint(8, 400), 8)), "D": gen_D(rng, kdim, scalar_only=(kdim == 3 and not have3d))}
         case["steps"].append(st)
     return case
 
 
-def gen_D(rng, kdim):
+def gen_D(rng, kdim, scalar_only=False):
     """scalar or symmetric positive semi-definite tensor (mm^2/s)"""
-    if rng.random() < 0.45:
+    if scalar_only or rng.random() < 0.45:
         return float(F(rng.randint(2, 48), 16)) * 1e-3
     a = np.array([[rng.randint(-4, 4) / 4 for _ in range(kdim)] for _ in range(kdim)])
     d = a @ a.T * 1e-3 * rng.choice([0.25, 0.5, 1.0])
@@ -361,8 +364,20 @@ def oracle_disagrees(case, final, coords):
     ns = final.shape[0]
     n = (ns - 1) // 2
     impl = {}
+    g = case["kgrid"]
+    if g:       # gridded back-end: stored coordinates are binary64 multiples of the grid step; identify states by grid index
+        ref = {tuple(x / F(g) for x in k): v for k, v in ref.items()}
+        if any(x.denominator != 1 for k in ref for x in k):
+            raise RuntimeError("generator produced an off-grid shift")
     for i in range(ns):
-        key = (F(i - n),) if coords is None else tuple(F(float(x)) for x in coords[i])
+        if coords is None:
+            key = (F(i - n),)
+        elif g:
+            key = tuple(F(round(float(x) / g)) for x in coords[i])
+            if max(abs(float(x) / g - round(float(x) / g)) for x in coords[i]) > 1e-6:
+                return "stored coordinate %s is not on the grid" % (coords[i],)
+        else:
+            key = tuple(F(float(x)) for x in coords[i])
         if key in impl and np.abs(final[i]).max() > 0:
             return "two stored states share the coordinates %s" % (key,)
         impl.setdefault(key, final[i])
